@@ -224,6 +224,12 @@ MPD_ATTRS = [
 ]
 
 
+def addressing(case) -> str:
+    from dashlive.server.manifests import manifest_map
+    m = manifest_map.get(case.template)
+    return "time" if (case.query.get("timeline") or (m is not None and m.segment_timeline)) else "number"
+
+
 def media_counts(res) -> dict:
     out = {}
     for ex in res.exchanges:
@@ -248,6 +254,30 @@ def gen_corruptions(ctx, rng, base, res, per_base: int):
     if not reps:
         return out
     cands = []
+    # every media-segment corruption of the catalogue on the FIRST, an INTERIOR and the LAST fetched segment
+    # of a Representation (one Representation per kind and session, chosen at random)
+    placed = []
+    usable = [(rid, n) for rid, n in sorted(counts.items())
+              if n >= 2 and reps.get(rid) is not None and reps[rid]["segments"]]
+    for kind in ("tfdt", "mfhd", "trun", "saio"):
+        pool = [(rid, n) for rid, n in usable if kind != "saio" or reps[rid]["encrypted"]]
+        if not pool:
+            continue
+        rid, n = rng.choice(pool)
+        ts = reps[rid]["dash_ts"]
+        places = [("first", 0), ("last", n - 1)] + ([("interior", rng.randrange(1, n - 1))] if n >= 3 else [])
+        for place, nth in places:
+            if kind == "tfdt":
+                # the first segment of a static presentation has decode time 0: only a later time is expressible
+                delta = rng.choice([ts, ts // 2 + 1, 2 * ts]) if place == "first" else \
+                    rng.choice([ts, -ts, ts // 2 + 1, -(ts // 2) - 1])
+            elif kind == "mfhd":
+                delta = rng.choice([1, 2, 7]) if place == "first" else rng.choice([1, -1, 2, 7])
+            elif kind == "trun":
+                delta = rng.choice([4, -8, 1, 1 << 20, -(1 << 12)])
+            else:
+                delta = rng.choice([1, -1, 8, 16, -5])
+            placed.append({"kind": kind, "rep": rid, "nth": nth, "delta": delta, "place": place})
     for rid, n in sorted(counts.items()):
         r = reps.get(rid)
         if r is None or not r["segments"]:
@@ -328,7 +358,7 @@ def gen_corruptions(ctx, rng, base, res, per_base: int):
             seen.add(c["kind"])
             ordered.append(c)
     ordered += [c for c in cands if c not in ordered]
-    for c in cross + ordered[:per_base]:
+    for c in cross + placed + ordered[:per_base]:
         out.append(c18_run.Case(base.stream, base.template, base.mode, dict(base.query), base.duration,
                                 base.now, corruption=c))
     return out
@@ -765,6 +795,123 @@ def _td_us(td: datetime.timedelta) -> int:
     return (td.days * 86400 + td.seconds) * 1_000_000 + td.microseconds
 
 
+# ------------------------------------------------------------------------------------------ single segments
+
+def segment_plan(rng, wide: bool):
+    """expectations x bytes for the `vsegx` channel.  One factor at a time around the correct expectation,
+    each factor through: absent (None), zero, exact, both tolerance boundaries; and the bytes as served, with
+    decode time 0 / a small decode time, and with sequence number 0 – so that `None` and `0` are told apart in
+    every comparison (expected and observed side)."""
+    import c18_run
+
+    def plan(rep, seg, data):
+        T, S = None, None
+        try:
+            import mp4walk
+            bx = mp4walk.walk(data)
+            T = mp4walk.find(bx, "moof/traf/tfdt").fields["base_media_decode_time"]
+            S = mp4walk.find(bx, "moof/mfhd").fields["sequence_number"]
+        except Exception:
+            return
+        ts = rep["dash_ts"]
+        tol0 = seg["tol"]
+        D = seg["exp_dur"] if seg["exp_dur"] is not None else 0
+        pto = seg["pto"]
+        bytes_variants = [("served", data, T, S)]
+        for label, kind, delta in (("tfdt=0", "tfdt", -T), ("tfdt=small", "tfdt", ts * 2 - T), ("seq=0", "mfhd", -S),
+                                   ("seq=1", "mfhd", 1 - S)):
+            if delta == 0 or (not wide and label in ("tfdt=small", "seq=1")):
+                continue
+            try:
+                d2, _ = c18_run.apply_corruption({"kind": kind, "delta": delta}, data)
+            except Exception:
+                continue
+            bytes_variants.append((label, d2, T + delta if kind == "tfdt" else T, S + delta if kind == "mfhd" else S))
+        for blabel, d, t, s_ in bytes_variants:
+            good = {"seq": s_, "dt": t, "dur": D or None, "tol": tol0, "pto": min(pto, t)}
+            yield f"{blabel}/exact", dict(good), d
+            dts = [None, 0, t + tol0, t + tol0 + 1, t + ts, max(0, t - tol0), t - tol0 - 1]
+            for v in dts:
+                if v is not None and v < 0:
+                    continue
+                yield f"{blabel}/dt={'None' if v is None else v - t}", dict(good, dt=v), d
+            for v in [None, 0, s_ + 1, max(0, s_ - 1)]:
+                yield f"{blabel}/seq={'None' if v is None else v - s_}", dict(good, seq=v), d
+            for v in [None, 0, D + ts, D + ts + 1, max(0, D - ts), max(0, D - ts - 1)]:
+                yield f"{blabel}/dur={'None' if v is None else v - D}", dict(good, dur=v), d
+            yield f"{blabel}/tol=0", dict(good, tol=0, dt=t + 1), d
+            yield f"{blabel}/tol=0,exact", dict(good, tol=0), d
+            yield f"{blabel}/all-none", dict(good, seq=None, dt=None, dur=None), d
+            yield f"{blabel}/all-zero", dict(good, seq=0, dt=0, dur=0), d
+            if wide:
+                yield f"{blabel}/pto-late", dict(good, pto=t + 1), d
+                for _ in range(3):
+                    yield f"{blabel}/random", {"seq": rng.choice([None, 0, s_, s_ + 1]),
+                                               "dt": rng.choice([None, 0, t, t + tol0, t + tol0 + 1]),
+                                               "dur": rng.choice([None, 0, D, D + ts + 1]),
+                                               "tol": rng.choice([0, tol0]), "pto": min(pto, t)}, d
+    return plan
+
+
+def direct_cases(ctx):
+    import c18_run
+    now = NOW_POOL[0]
+    cases = [c18_run.Case("bbb", "hand_made.mpd", "vod", {"timeline": "1"}, 12, now),
+             c18_run.Case("bbb", "hand_made.mpd", "live", {"depth": "30"}, 12, now),
+             c18_run.Case("bbb", "manifest_e.mpd", "vod", {"drm": "clearkey"}, 12, now)]
+    if ctx.thorough:
+        cases += [c18_run.Case("bbb", "hand_made.mpd", "vod", {}, 12, now),
+                  c18_run.Case("bbb", "manifest_a.mpd", "live", {"depth": "30"}, 12, now),
+                  c18_run.Case("tears", "hand_made.mpd", "vod", {"timeline": "1"}, 12, NOW_POOL[1]),
+                  c18_run.Case("tears", "manifest_e.mpd", "live", {"depth": "30", "timeline": "1"}, 12, NOW_POOL[2]),
+                  c18_run.Case("bbb", "hand_made.mpd", "live", {"depth": "40", "drm": "playready", "timeline": "1"}, 12,
+                               NOW_POOL[3]),
+                  c18_run.Case("bbb", "manifest_h.mpd", "vod", {}, 12, NOW_POOL[1])]
+    return cases
+
+
+def run_direct_channel(ctx, app, ch, batch):
+    """`vsegx`: the real validate_segment on real MediaSegment objects with chosen expectations"""
+    import c18_run
+    rng = ctx.rng("vsegx")
+    for case in direct_cases(ctx):
+        rows = c18_run.run_direct(app, case, segment_plan(rng, ctx.thorough), per_rep=3,
+                                  max_reps=None if ctx.thorough else 2)
+        inits = {}
+        for r in rows:
+            if "inits" in r:
+                inits = r["inits"]
+        for r in rows:
+            if "seg" not in r:
+                if r.get("timed_out"):
+                    ch.errors.append(f"direct session timed out: {case.path()}")
+                continue
+            rep, seg = r["rep"], r["seg"]
+            if r["crashed"]:
+                ch.oracle_failures.append({"case": case.json(), "what": "validate_segment crashed",
+                                           "label": r["label"], "crash": r["crashed"]})
+                continue
+            trex = M.trex_default_duration(inits.get(rep["id"]))
+            ot = M.obs_token(r["status"], r["data"], r["content_type"], rep, trex, rep["iv_size"])
+            if ot is None:
+                ch.count("skipped:unreadable")
+                continue
+            kinds = M.classify_segment_errors(seg["errors"], seg)
+            ctx_tok = M.ctx_token(rep, case.encrypted(), has_trex=trex is not None)
+            batch.add(ch, f"vseg {ctx_tok} {M.exp_token(seg)} {ot}", ",".join(kinds) or "-",
+                      {"case": case.json(), "rep": rep["id"], "segment": seg["name"], "index": r["index"],
+                       "label": r["label"]})
+            for f_, v in (("dt", seg["exp_dt"]), ("seq", seg["exp_seq"]), ("dur", seg["exp_dur"])):
+                ch.count(f"expected-{f_}:" + ("None" if v is None else "zero" if v == 0 else "positive"))
+            ch.count("observed-tfdt:" + ("zero" if seg["dt"] == 0 else "positive"))
+            ch.count("index:" + ("first" if r["index"] == 0 else "later"))
+            for k in kinds or ["clean"]:
+                ch.count(f"kind:{k}")
+            ch.nontrivial.add((case.path(), rep["id"], r["index"], r["label"]))
+        if len(batch.lines) > 3000:
+            batch.run()
+
+
 # ------------------------------------------------------------------------------------------ channels
 
 RULES = {
@@ -780,6 +927,12 @@ RULES = {
             "non-trivial = at least two segments; distinct by (representation, pass, case)",
     "vseg": "one fetched media segment: MediaSegment.validate_segment error kinds in order vs the model; "
             "non-trivial = the response was rewritten or an error was reported",
+    "vsegx": "real MediaSegment objects created on real, loaded Representations (first, middle, last generated "
+             "segment; static and live; $Time$ and $Number$; clear and encrypted) with chosen expectations – each of "
+             "expected sequence number / decode time / duration through None, 0, exact and both tolerance "
+             "boundaries – over the served bytes and bytes patched to decode time 0 / small and sequence number "
+             "0 / 1; real validate_segment error kinds in order vs the model; distinct by (session, "
+             "representation, segment, variant)",
     "vtl": "SegmentTimeline S elements (read with lxml) vs the validator's expanded (start, duration) list; "
            "non-trivial = at least two S elements",
     "vgen": "expectations generated at load: timeline mode (sequence number, decode time, duration, tolerance per "
@@ -812,6 +965,8 @@ def run_sessions(app, cases, chs, batch, limit_s=None):
             run.count(f"not-applicable:{label}")
             continue
         run.count(f"{case.mode}:{label}")
+        if c is not None and "place" in c:
+            run.count(f"placement:{c['kind']}:{c['place']}:{case.mode}:{addressing(case)}")
         run.count(f"template:{case.template}")
         if case.mode == "live":
             run.count(f"live-mup:{case.query.get('mup', 'default')}")
@@ -844,7 +999,7 @@ def channels(ctx):
     batch = Batch()
     rng = ctx.rng("validator_run")
     pristine = gen_pristine(ctx, rng)
-    budget = 95 if not ctx.thorough else 780
+    budget = 85 if not ctx.thorough else 740
     t0 = time.time()
     done = run_sessions(app, pristine, chs, batch, limit_s=budget * .35)
     corrupted = []
@@ -858,6 +1013,16 @@ def channels(ctx):
     kinds_first, rest, seen = [], [], {}
     for c in corrupted:
         k = (c.corruption["kind"], c.mode)
+        if "place" in c.corruption:
+            # … in static and live sessions, $Time$ and $Number$ addressing
+            k += (c.corruption["place"], addressing(c))
+            limit = 1 if not ctx.thorough else 10 ** 6
+            if seen.get(k, 0) < limit:
+                seen[k] = seen.get(k, 0) + 1
+                kinds_first.append(c)
+            else:
+                rest.append(c)
+            continue
         if c.corruption["kind"] in ("ast", "mpdid"):
             # every cross-refresh corruption on every shape of manifest update announcement
             k += (c.query.get("mup", "default"), bool(c.query.get("timeline")), c.template)
@@ -867,10 +1032,11 @@ def channels(ctx):
         else:
             rest.append(c)
     run_sessions(app, kinds_first + rest, chs, batch, limit_s=max(10, budget - (time.time() - t0)))
+    run_direct_channel(ctx, app, chs["vsegx"], batch)
     batch.run()
     run = chs["validator_run"]
     # verdict-level correspondence: a disagreement in any sub-channel is a verdict disagreement of its session
-    for name in ("vrep", "vseg", "vtl", "vgen", "vinit", "vmpd", "vrefresh"):
+    for name in ("vrep", "vseg", "vsegx", "vtl", "vgen", "vinit", "vmpd", "vrefresh"):
         yield chs[name]
     yield run
 
